@@ -263,6 +263,16 @@ class Impl:
             elif a[0] == "stop":
                 self.bcore.stop()
                 self.out.append(["act", "stop", now])
+            elif a[0] == "pump":
+                # the callback pumps the loop itself (a blocking helper waiting for something)
+                self.out.append(["act", "pump", now])
+                self.pump_depth += 1
+                try:
+                    if self.pump_depth > 6:       # the generators nest at most 3 deep
+                        raise Overrun("run_once() nested %d deep" % self.pump_depth)
+                    self.bcore.run_once()
+                finally:
+                    self.pump_depth -= 1
             else:
                 raise core.Infra("bad act %r" % (a,))
 
@@ -385,6 +395,7 @@ class Impl:
             self.restore(req["from"])
         self.out = []
         self.reads = 0
+        self.pump_depth = 0
         self.max_reads = ONCE_READS
         aux = None
         vt = self.vt
@@ -463,6 +474,10 @@ class Oracle:
         self.inst = 0
         self.now = 0                      # us, from the replies
         self.snaps = {}
+        # a callback that pumps the loop legitimately changes the ORDER of calls (the nested pass
+        # runs what was deferred since the batch was detached, before the rest of the batch):
+        # exactly-once is then checked on multisets, the order by the lockstep with the model
+        self.pumps = '"pump"' in json.dumps(scn)
 
     def save(self, k):
         self.snaps[k] = ({t: list(v) for t, v in self.pending.items()}, list(self.tt),
@@ -584,13 +599,18 @@ class Oracle:
                         if p[0] + 0.5 + self.tol < self.now:
                             fail("due-not-fired", "task %d due %s still queued after a complete pass "
                                  "at %d" % (tid, float(p[0]), self.now))
-                    if impl.calls != impl.subs:
+                    if (sorted(impl.calls) != sorted(impl.subs)) if self.pumps else (impl.calls != impl.subs):
                         fail("deferred", "submitted %r, called %r" % (impl.subs, impl.calls),
                              lost=len(impl.subs) - len(impl.calls))
         # deferred functions, after every operation: what was called is a prefix of what was
         # submitted and the queue holds exactly the rest, in order — nothing lost, ever
         nc = len(impl.calls)
-        if impl.calls != impl.subs[:nc]:
+        if self.pumps:
+            if sorted(impl.calls + dg["queue"]) != sorted(impl.subs):
+                fail("deferred", "submitted %r, called %r, queued %r: not each exactly once"
+                     % (impl.subs, impl.calls, dg["queue"]),
+                     lost=len(impl.subs) - nc - len(dg["queue"]))
+        elif impl.calls != impl.subs[:nc]:
             fail("deferred", "submitted %r, called %r" % (impl.subs, impl.calls))
         elif dg["queue"] != impl.subs[nc:]:
             fail("deferred", "submitted %r, called %r, but the queue holds %r: %d lost"
@@ -870,12 +890,19 @@ def run_dfs(ctx, L, last_adv=False):
 G = 15625            # 1/64 s in us: every multiple is an exact double
 
 
+PUMPS_LEFT = [0]     # pumping callbacks still allowed in the history being generated (the
+                     # model nests four levels deep; three pumping callbacks cannot nest deeper)
+
+
 def rand_acts(rng, me, p):
     """re-entrant acts for the random stream: installs are always `after d` with d > 0 and
     only of one-shot tasks (0..3), so every chain of re-arming moves forward in time"""
     acts = []
     if rng.random() >= p:
         return acts
+    if PUMPS_LEFT[0] > 0 and (me is None or me < 4) and rng.random() < 0.12:
+        PUMPS_LEFT[0] -= 1
+        return [["pump"]] if rng.random() < 0.6 else [["after", rng.randrange(4), 8 * G], ["pump"]]
     for _ in range(rng.choice([1, 1, 2])):
         r = rng.random()
         if r < 0.35 and me is not None and me < 4:
@@ -909,6 +936,7 @@ def gen_random(rng, n_ops, reentrant=False):
     recurring slots are exact ties on both sides."""
     ids = [1]
     tasks = []
+    PUMPS_LEFT[0] = 3 if reentrant else 0
     pa = 0.5 if reentrant else 0.0
     pf = 0.3 if reentrant else 0.0
     # four one-shot tasks (two classes), two recurring tasks on disjoint grids that no
@@ -922,7 +950,7 @@ def gen_random(rng, n_ops, reentrant=False):
     for i in range(2):
         tasks.append({"rec": True, "raises": rng.random() < 0.3, "kind": rng.randrange(KINDS + 1),
                       "defers": [fn_spec(rng, ids, 0, pf) for _ in range(rng.choice([0, 0, 1]))]})
-        acts = [a for a in rand_acts(rng, None, pa)]
+        acts = [a for a in rand_acts(rng, 9, pa)]       # (9: a recurring body never pumps)
         if acts:
             tasks[-1]["a"] = acts
     base = (1 << 30 if reentrant else rng.choice([0, 1 << 30])) * 1000000 + G
@@ -1208,10 +1236,208 @@ def stop_scenarios(ctx):
     return scns
 
 
+def pump_scenarios(ctx):
+    """a callback pumps the loop itself: core.run_once() called from inside a deferred function
+    (every position of batches of 1..4, every subset of members deferring children, every
+    raising member, nesting depth 1 and 2) and from inside a task body (other tasks due at the
+    same instant, functions pending).  Every submitted function must be called exactly once."""
+    scns = []
+    for n in range(1, 5):
+        for p in range(n):
+            for mask in range(1 << n):
+                for r in range(-1, n):
+                    for deep in (0, 1, 2):
+                        # deep 1: a child deferred by an EARLIER member pumps again inside the nested
+                        # pass (depth 2); deep 2: the pumper installs a task for "now" first, whose
+                        # body pumps as well
+                        if deep == 1 and not (p > 0 and (mask & 1)):
+                            continue
+                        for loop in ("once", "run"):
+                            fns = []
+                            for i in range(n):
+                                kid = {"id": 10 + i, "r": i == r, "kind": (i + mask) % KINDS, "k": []}
+                                if deep == 1 and i == 0:
+                                    kid["a"] = [["pump"]]
+                                    kid["k"] = [{"id": 20, "r": False, "k": []}]
+                                f = {"id": i, "r": i == r, "kind": (i + p + mask) % KINDS,
+                                     "k": [kid] if (mask >> i) & 1 else []}
+                                if i == p:
+                                    f["a"] = ([["after", 0, 0]] if deep == 2 else []) + [["pump"]]
+                                fns.append(f)
+                            tasks = [{"rec": False, "raises": False, "kind": (n + p) % (KINDS + 1),
+                                      "defers": [{"id": 30, "r": False, "k": []}],
+                                      "a": [["pump"]] if deep == 2 else []}]
+                            adv = {"op": loop, "d": 0}
+                            if loop == "run":
+                                adv["fuel"] = FUEL
+                            scns.append({"tpu": 1, "tasks": tasks,
+                                         "ops": [{"op": "defer", "f": f} for f in fns] + [adv, {"op": "once", "d": D}]})
+    # from a task body: tasks 0..2 due together, one of them pumps (before / after installing
+    # another one for now, raising or not); functions are pending and more get deferred
+    for pumper in range(3):
+        for raises in (False, True):
+            for extra in ([], [["after", 3, 0]], [["suspend", (pumper + 1) % 3]]):
+                for loop in ("once", "run"):
+                    tasks = []
+                    for i in range(4):
+                        t = {"rec": False, "raises": raises and i == pumper, "kind": (i + pumper) % (KINDS + 1),
+                             "defers": [{"id": i, "r": False, "kind": (i + 1) % KINDS,
+                                         "k": [{"id": 10 + i, "r": False, "k": []}]}]}
+                        if i == pumper:
+                            t["a"] = extra + [["pump"]]
+                        tasks.append(t)
+                    adv = {"op": loop, "d": D}
+                    if loop == "run":
+                        adv["fuel"] = FUEL
+                    scns.append({"tpu": 1, "tasks": tasks,
+                                 "ops": [{"op": "at", "t": i, "when": D} for i in range(3)]
+                                 + [{"op": "defer", "f": {"id": 40, "r": False, "k": []}}, adv, {"op": "once", "d": D}]})
+    return scns
+
+
 def shard_reentrant(ctx, spec):
     which, i, n = spec
-    scns = reentrant_scenarios(ctx) if which == "reentrant" else stop_scenarios(ctx)
+    scns = {"reentrant": reentrant_scenarios, "stop": stop_scenarios, "pump": pump_scenarios}[which](ctx)
     run_scenarios(ctx, which, scns[i::n])
+
+
+# --------------------------------------------------------------------------
+# longrun: one long history in a process whose TaskManager keeps its REAL trigger
+
+LONGRUN_OPS = 90000
+
+
+def longrun_child(seed, n_ops, mode):
+    """Runs in a FRESH interpreter (python -m harness.c14 longrun ...): nothing of the rig above
+    is installed — the TaskManager singleton is created by bacpypes itself with its real
+    _Trigger (a pipe), only bacpypes.task._time is the virtual clock.  mode "once": driven by
+    core.run_once() alone (nothing ever reads the pipe); mode "run": passes are made by the real
+    core.run() with the real asyncore loop, ended by a deferred stop().  Every operation is
+    cheap; more than 65536 of them call trigger.set().  Oracle: no call raises, every installed
+    task fires exactly once, on time and never early, unless suspended or moved; every deferred
+    function is called exactly once, in order.  Prints one JSON line."""
+    import random
+    core.bind_repo()
+    import bacpypes.task as btask
+    import bacpypes.core as bcore
+    clock = [1000.0]
+    btask._time = lambda: clock[0]
+    tm = btask.TaskManager()
+    real_trigger = type(tm.trigger).__name__ if tm.trigger is not None else None
+    bcore.run._exception = bcore.run_once._exception = lambda *a: errors.append(repr(sys.exc_info()[1]))
+    rng = random.Random(seed)
+    fired, errors, calls = [], [], []
+    K = 8
+    STEP = 0.25
+
+    class T(btask.OneShotTask):
+        def __init__(self, k):
+            btask.OneShotTask.__init__(self)
+            self.k = k
+
+        def process_task(self):
+            fired.append((self.k, clock[0], self.taskTime))
+    tasks = [T(k) for k in range(K)]
+    stop_task = btask.FunctionTask(bcore.stop)
+    pending = {}
+    nsub = 0
+    checked = 0
+    sets = 0
+    fail = None
+
+    def one_pass():
+        if mode == "once":
+            bcore.run_once()
+            return
+
+        # a task due now, installed last, fires after everything else that is due: it stops the loop
+        stop_task.install_task(when=clock[0])
+        bcore.run(spin=0.001, sigterm=None, sigusr1=None)
+
+    for i in range(n_ops):
+        r = rng.random()
+        k = rng.randrange(K)
+        try:
+            if r < 0.45:
+                due = clock[0] + rng.randrange(4) * STEP
+                what = "install_task(task %d, when=%r)%s" % (k, due, " [re-install of a pending task]" if k in pending else "")
+                sets += 2 if k in pending else 1
+                tasks[k].install_task(when=due)
+                pending[k] = due
+            elif r < 0.60:
+                what = "suspend_task(task %d)" % k
+                sets += 1
+                tasks[k].suspend_task()
+                pending.pop(k, None)
+            elif r < 0.85:
+                what = "deferred(function %d)" % nsub
+                sets += 1
+                n = nsub
+                nsub += 1
+                bcore.deferred(calls.append, n)
+            else:
+                what = "clock += %r; %s()" % (STEP, "run_once" if mode == "once" else "run")
+                clock[0] += STEP
+                nf = len(fired)
+                one_pass()
+                new = fired[nf:]
+                exp = sorted(k2 for k2, d2 in pending.items() if d2 <= clock[0])
+                if sorted(f[0] for f in new) != exp:
+                    fail = "tasks due %r, fired %r" % (exp, new)
+                for k2, now2, tt in new:
+                    if k2 in pending and (tt != pending[k2] or now2 < tt):
+                        fail = "task %d due %r fired at %r with taskTime %r" % (k2, pending[k2], now2, tt)
+                    pending.pop(k2, None)
+                if len(calls) != nsub or calls[checked:] != list(range(checked, nsub)):
+                    fail = "deferred: %d submitted, called %d (first difference at or after %d)" % (
+                        nsub, len(calls), checked)
+                checked = nsub
+                if errors:
+                    fail = "logged by the loop: %s" % errors[0]
+            # the schedule after every operation: one entry per task, present iff pending
+            if fail is None and (len(tm.tasks) != len(pending) or
+                                 (i % 16 == 0 and sorted(t.k for _w, _n, t in tm.tasks) != sorted(pending))):
+                fail = "heap holds %r, expected %r" % (sorted(t.k for _w, _n, t in tm.tasks), sorted(pending))
+        except Exception as e:
+            fail = "%s raised %s: %s" % (what, type(e).__name__, e)
+        if fail:
+            print(json.dumps({"ok": False, "op": i, "what": "operation %d (%s; about %d trigger.set() calls "
+                                                              "so far): %s" % (i, what, sets, fail),
+                              "trigger": real_trigger, "sets": sets}))
+            return
+    print(json.dumps({"ok": True, "ops": n_ops, "sets": sets, "fired": len(fired), "called": len(calls),
+                      "trigger": real_trigger}))
+
+
+def run_longrun(ctx, seed, n_ops, mode):
+    import subprocess
+    case = {"stream": "longrun", "seed": seed, "n_ops": n_ops, "mode": mode}
+    env = dict(os.environ, VERIF_REPO=core.REPO, PYTHONDONTWRITEBYTECODE="1")
+    try:
+        p = subprocess.run([sys.executable, "-m", "harness.c14", "longrun", str(seed), str(n_ops), mode],
+                           cwd=core.VERIF, env=env, stdout=subprocess.PIPE, stderr=subprocess.PIPE, timeout=300)
+    except subprocess.TimeoutExpired:
+        ctx.fail("longrun", case, "the long history did not finish in 300 s")
+        return
+    ctx.streams["longrun"] += n_ops
+    try:
+        res = json.loads(p.stdout.decode().strip().split("\n")[-1])
+    except Exception:
+        raise core.Infra("longrun child failed: rc=%s %s" % (p.returncode, p.stderr.decode()[-800:]))
+    if res.get("trigger") is None:
+        ctx.notes.append("longrun: this platform has no TaskManager trigger")
+    if res["ok"]:
+        ctx.count("longrun", ("ok", mode), n=n_ops)
+        ctx.sample({"stream": "longrun", "mode": mode, "ops": n_ops, "trigger_sets": res["sets"],
+                    "fired": res["fired"], "called": res["called"], "trigger": res["trigger"]})
+    else:
+        ctx.count("longrun", ("fail", mode), n=res["op"] + 1)
+        ctx.fail("longrun", dict(case, failing_op=res["op"]), res["what"])
+
+
+def shard_longrun(ctx, spec):
+    seed, n_ops, mode = spec
+    run_longrun(ctx, seed, n_ops, mode)
 
 
 # --------------------------------------------------------------------------
@@ -1230,12 +1456,17 @@ def run(ctx):
     run_scenarios(ctx, "corpus", corpus_scenarios())
     core.run_shards(ctx, "harness.c14", "shard_deferred", list(range(KINDS)))
     core.run_shards(ctx, "harness.c14", "shard_reentrant",
-                    [(w, i, 8) for w in ("reentrant", "stop") for i in range(8)])
+                    [(w, i, 8) for w in ("reentrant", "stop", "pump") for i in range(8)])
     run_scenarios(ctx, "grid", grid_scenarios(ctx, rng))
+    lr_seed = ctx.sub_rng("c14-longrun").randrange(1 << 30)
     if ctx.quick:
+        run_longrun(ctx, lr_seed, LONGRUN_OPS, "once")
         core.run_shards(ctx, "harness.c14", "shard_random", [("q%d" % i, 25, 200) for i in range(16)])
         run_dfs(ctx, 6, last_adv=True)
     else:
+        core.run_shards(ctx, "harness.c14", "shard_longrun",
+                        [(lr_seed + i, LONGRUN_OPS * (1 + i % 2), "once") for i in range(4)]
+                        + [(lr_seed + 10 + i, LONGRUN_OPS, "run") for i in range(3)])
         core.run_shards(ctx, "harness.c14", "shard_random", [("t%d" % i, 150, 200) for i in range(64)])
         run_dfs(ctx, 7, last_adv=True)
 
@@ -1261,4 +1492,12 @@ def replay(ctx, payload):
     scn = rec.get("case") or payload.get("scenario")
     if not scn:
         raise core.Infra("nothing to replay")
+    if scn.get("stream") == "longrun":
+        run_longrun(ctx, scn["seed"], scn["n_ops"], scn["mode"])
+        return
     run_scenarios(ctx, "replay", [scn])
+
+
+if __name__ == "__main__":
+    if len(sys.argv) == 5 and sys.argv[1] == "longrun":
+        longrun_child(int(sys.argv[2]), int(sys.argv[3]), sys.argv[4])
